@@ -44,7 +44,7 @@ func schedule(c *rt.Ctx) []Case {
 		bases := [][]string{nil, midFlags, richFlags, append([]string{"idx.uq", "uqc", "pk2", "col.def", "enum.v3", "enumcol.def", "idx.where"}, richFlags...)}
 		if d == "postgres" {
 			// enum objects without a schema back-reference / attached through column types only
-			bases = append(bases, append([]string{"enum.noschema"}, richFlags...), append([]string{"enum.noschema", "enum.noobj"}, midFlags...), append([]string{"enum.noobj"}, richFlags...))
+			bases = append(bases, append([]string{"serial.seq"}, richFlags...), append([]string{"serial.seq", "bigserial"}, midFlags...), append([]string{"enum.noschema"}, richFlags...), append([]string{"enum.noschema", "enum.noobj"}, midFlags...), append([]string{"enum.noobj"}, richFlags...))
 		}
 		for _, b := range bases {
 			cases = append(cases,
